@@ -149,6 +149,7 @@ func runC08(seed uint64, n int, outDir string, replay string) {
 			}()
 			if c == 0 {
 				c08AuxBinding(o, rc.Fork())
+				c08ShareWithBadMix(o, rc.Fork())
 			}
 			wo := types.EmptyWorkObject(common.ZONE_CTX)
 			fuzzSetters(rc, wo.WorkObjectHeader(), common.Location{0, 0})
@@ -384,6 +385,56 @@ func c08AuxBinding(o *h.Out, rc *h.Rng) {
 			o.Count("auxbinding:inconclusive") // both stop at the same, earlier check: the probe did not reach the commitment
 		default:
 			o.Count("auxbinding:foreign-proof-refused")
+		}
+	}
+}
+
+// c08ShareWithBadMix: after the fork a merge-mined share is classified by its KAWPOW hash.  A share whose donor header
+// carries a mix digest that does not belong to its nonce has no verifiable proof of work at all: on a chain with the
+// real KAWPOW engine it must be classified Invalid - never as a valid work share - by CheckIfValidWorkShare and by the
+// uncle classification; the same share with its genuine mix digest is the control (whatever its class, the two differ
+// only if the genuine one happens to meet a target).
+func c08ShareWithBadMix(o *h.Out, rc *h.Rng) {
+	hierRealKawpow = true
+	lvl, _, _, err := newHLevel(rawdbWithLoc(common.Location{0, 0}), common.Location{0, 0}, nil, 1)
+	hierRealKawpow = false
+	if err != nil {
+		o.Count("badmix:no-chain")
+		return
+	}
+	defer func() {
+		done := make(chan struct{})
+		go func() { defer func() { recover(); close(done) }(); lvl.sl.Stop() }()
+		select {
+		case <-done:
+		case <-time.After(3 * time.Second):
+		}
+	}()
+	eng := kawpow.New(params.PowConfig{PowMode: params.ModeNormal, CachesInMem: 1}, nil, false, log.Global)
+	for i := 0; i < 2; i++ {
+		height := uint32(1000 + rc.Intn(5000))
+		wh := kawpowHeader(height, rc.U64())
+		wh.SetDifficulty(new(big.Int).Lsh(big.NewInt(1), 200))
+		wh.SetKawpowDifficulty(new(big.Int).Lsh(big.NewInt(1), 200))
+		wh.SetShaDiffAndCount(types.NewPowShareDiffAndCount(big.NewInt(1000), big.NewInt(0), big.NewInt(0)))
+		wh.SetScryptDiffAndCount(types.NewPowShareDiffAndCount(big.NewInt(1000), big.NewInt(0), big.NewInt(0)))
+		wh.SetShaShareTarget(big.NewInt(100))
+		wh.SetScryptShareTarget(big.NewInt(100))
+		mix, _, err := eng.VerifyKawpowShare(wh.AuxPow().Header().SealHash().Reverse(), wh.AuxPow().Header().Nonce64(), uint64(height))
+		if err != nil {
+			o.Count("badmix:no-genuine-mix")
+			continue
+		}
+		good := types.CopyWorkObjectHeader(wh)
+		good.AuxPow().Header().SetMixHash(mix)
+		bad := types.CopyWorkObjectHeader(wh)
+		var garbage common.Hash
+		copy(garbage[:], rc.Bytes(32))
+		bad.AuxPow().Header().SetMixHash(garbage)
+		vGood, vBad := lvl.hc.CheckIfValidWorkShare(good), lvl.hc.CheckIfValidWorkShare(bad)
+		o.Count(fmt.Sprintf("badmix:genuine-class-%d", vGood))
+		if vBad != types.Invalid {
+			o.Violate("c08-share-without-verifiable-work-accepted", fmt.Sprintf("a merge-mined share whose donor header carries a mix digest that is not the one of its nonce is classified %d by CheckIfValidWorkShare (Invalid is %d; the same share with the genuine digest: %d)", vBad, types.Invalid, vGood))
 		}
 	}
 }
